@@ -156,6 +156,20 @@ func (c *Ctx) execFunc(fr *Frame, args []Val, st *State, R string) ([]Val, *Stat
 		for phi, v := range phiVals {
 			fr.vals[phi] = v
 		}
+		// a phi is the current value of the variable it merges: record it like a reference, so that a name used in an
+		// annotation after the merge is not bound to one of the merged definitions
+		for _, ins := range b.Instrs {
+			phi, ok := ins.(*ssa.Phi)
+			if !ok {
+				break
+			}
+			if phi.Comment != "" && phi.Comment != "rangeindex" {
+				if fr.refs == nil {
+					fr.refs = map[string][]refRec{}
+				}
+				fr.refs[phi.Comment] = append(fr.refs[phi.Comment], refRec{b, phi})
+			}
+		}
 		// instructions
 		dead := false
 		for _, ins := range b.Instrs {
